@@ -207,7 +207,11 @@ def snapshot_trailer_reachable(ctx):
                    and (b.local_ty(l) or "") in ("usize", "u64")]
             tb = pathsym.Table(paths)
             lens = [q for q in tb.quant if q[0] == "call" and re.search(r"::len$", q[1])]
-            reads = [q for q in tb.quant if q not in lens and not (q[0] == "sym") and pathsym.mentions(q, lambda e: e[0] == "call" and "from_be_bytes" in e[1])]
+            # lengths read from the buffer: opaque quantities that depend on the buffer (from_be_bytes over an index range, or a
+            # `read_u64(&buffer, pos)` helper) - everything that is neither a plain symbol nor the buffer length
+            reads = [q for q in tb.quant if q not in lens and not (q[0] == "sym") and
+                     (pathsym.mentions(q, lambda e: e[0] == "call" and "from_be_bytes" in e[1]) or
+                      (q[0] == "call" and pathsym.mentions(q, lambda e: e[0] == "sym" and e != q)))]
             if len(cur) != 1 or len(lens) != 1 or not reads or tb.bools or tb.vars:
                 ctx.bad("C23-f", key, "UNRECOGNISED-FORM: record loop does not have the shape (one cursor, one buffer length, u64 lengths read from the buffer): cursors %s, "
                         "lengths %d, reads %d, other atoms %d" % ([b.local_name(l) for l in cur], len(lens), len(reads), len(tb.bools) + len(tb.vars)), where)
@@ -215,6 +219,9 @@ def snapshot_trailer_reachable(ctx):
             c0 = env[cur[0]]
             # the length read AT the cursor: its index range starts at the cursor itself
             at_cursor = [q for q in reads if pathsym.mentions(q, lambda e: e[0] == "agg" and "Range" in str(e[1]) and any(f == "start" and v == c0 for (f, v) in e[3]))]
+            if not at_cursor:
+                # helper form: the read is a call one of whose arguments is the cursor itself
+                at_cursor = [q for q in reads if q[0] == "call" and any(pathsym.strip_refs(a) == c0 for a in q[2])]
             if len(at_cursor) > 1:
                 # later reads are positioned after the first one and therefore contain it as a sub-expression: take the innermost
                 inner = [q for q in at_cursor if all(q2 == q or pathsym.mentions(q2, lambda e, q=q: e == q) for q2 in at_cursor)]
